@@ -496,13 +496,7 @@ def language_after_history(ctx):
     q = Queries(timeout_s=20, diff_binary=False)
     cex = []
     counts = {}
-    for p in POLLUTERS:
-        for v in ('1.0', '1.1'):
-            try:
-                translate_pattern(p, xsd_version=v, back_references=False, lazy_quantifiers=False, anchors=False)
-                translate_pattern(p, xsd_version=v)
-            except RegexError:
-                pass
+    _run_history()
     for a in ATOMS:
         for qf in ('', '+'):
             p = a + qf
@@ -511,5 +505,22 @@ def language_after_history(ctx):
             r = _decide(p, '1.0', False, q, cex, 'after-history P=%r' % p)
             counts[r] = counts.get(r, 0) + 1
     q.samples.extend(POLLUTERS[:4])
+    for c in cex:       # the replay has to repeat the history first
+        c['call'] = c['call'].replace('replay_language(', 'replay_language_after_history(', 1)
     res = q.result(cex[:10], detail=dict(programs=sum(counts.values()), outcomes=counts))
     return res
+
+
+def _run_history():
+    for p in POLLUTERS:
+        for v in ('1.0', '1.1'):
+            try:
+                translate_pattern(p, xsd_version=v, back_references=False, lazy_quantifiers=False, anchors=False)
+                translate_pattern(p, xsd_version=v)
+            except RegexError:
+                pass
+
+
+def replay_language_after_history(pattern, version, dotall, subject, xpath=False):
+    _run_history()
+    return replay_language(pattern, version, dotall, subject, xpath)
